@@ -101,7 +101,9 @@ def check_pair(got, want, act=None):
             raise Violation(key, 'check_output({!r}, {!r}) under [{}] = {} but the documented relation gives {}'.format(
                 got, want, fname(idx), act[idx], exp[idx]))
     # L2 monotone: one more leniency never turns a match into a mismatch
-    if want and not _DOTS4.search(_WS.sub('', want)):
+    # (runs of >= 4 dots have no defined tokenisation - section 6.6 - also when whitespace deletion or the removal of
+    #  a <BLANKLINE> marker that is not alone on its line is what fuses a literal dot with a wildcard)
+    if want and not _DOTS4.search(_WS.sub('', want.replace(ref.MARK, ''))):
         for idx in range(32):
             if not act[idx]:
                 continue
